@@ -1,0 +1,6 @@
+//go:build !verif
+
+package dkg
+
+// verifTrace is a no-op unless the package is built with the tag `verif`.
+func verifTrace(string, ...any) {}
